@@ -10,6 +10,8 @@ import Anko.Proofs.Scanner
 import Anko.Proofs.ScanConcat
 import Anko.Gen.ParserGen
 import Anko.Proofs.ScanTables
+import Anko.Gen.LexFlow
+import Anko.Props.LexFlowTable
 
 namespace Anko.C15
 open Anko.Scan
@@ -214,5 +216,14 @@ example : ('<', [('-', "<-"), ('=', "<="), ('<', "<<")]) ∈ Scan.opTable := by 
 parser/parser.go.y reproduces the committed parser/parser.go byte for byte (regenerated on every
 run), so facts read off the grammar are facts about the running parser. -/
 theorem committed_parser_is_generated_from_grammar : Gen.ParserGen.committedParserIsGenerated = true := by decide
+
+/-! ### The scanner in the source, function by function (regenerated: Gen/LexFlow)
+
+Every leaf statement of every function of parser/lexer.go - Init, Scan (with its retry and comment loops), peek / next / back / skipBlank, scanIdentifier,
+scanNumber, scanString, scanRawString, the Lexer adapter, Parse / ParseSrc, toNumber, stringToValue - with the conditions it stands under, is the
+one written down in Props/LexFlowTable next to Model/Scanner, which mirrors these functions one by one (the tables of Gen/Lexer cover the keyword
+map, the character classes and the operator switch; this covers the control flow around them). Any edit of these functions - also a harmless one - breaks this obligation by name; the check then
+searches model and implementation for a failing input (DESIGN.md 13.3). -/
+theorem scanner_functions_are_the_modelled_ones : Gen.LexFlow.leaves = Tables.lexFlow := by decide +kernel
 
 end Anko.C15
